@@ -11,6 +11,7 @@ Core Lean only.
 -/
 import FFVerif.Model.Validate
 import FFVerif.Props.C03a
+import FFVerif.Lemmas.RemapDefAux
 
 namespace FFVerif.Model.Validate
 open FFVerif.Model
@@ -1604,11 +1605,17 @@ instance (x : ExtendSpec) : Decidable (ValidExtendFront x) := by
 /-- side conditions for the mapping checks: a bare int is one qubit (invariant of the
 abstraction); time grids that are equal as arrays have equal bytes and vice versa (excludes the
 `all_array_equal` discrepancy); NumPy's `int(log(d)/log(d_per_qubit))` is exact for the pulses
-whose dimension is the right power (excludes the `remap` discrepancy) -/
+whose dimension is the right power (excludes the `remap` discrepancy); the entries that are passed
+through `remap` (qubits not an ascending tuple) have unique control and unique noise identifiers
+of their own (invariant of `PulseSequence` — every public way to build one yields unique
+identifiers since the repair of F48; a pulse whose identifier arrays were overwritten with
+repetitions is rejected by the inner `remap` in the first loop, "Could not remap …", instead of at
+the uniqueness check further down: `extend_own_duplicates_rejected` in `Props/C20`) -/
 def ExtendRegularFront (x : ExtendSpec) : Prop :=
   (∀ p ∈ x.pulses, p.form = .bareInt → p.qubits.length = 1) ∧
   (∀ p ∈ x.pulses, ∀ q ∈ x.pulses, (p.dtBytes = q.dtBytes ↔ p.dtValue = q.dtValue)) ∧
-  (∀ p ∈ x.pulses, p.d = x.dPerQubit ^ p.qubits.length → p.logN = p.qubits.length)
+  (∀ p ∈ x.pulses, p.d = x.dPerQubit ^ p.qubits.length → p.logN = p.qubits.length) ∧
+  (∀ p ∈ x.pulses, p.remapped = true → p.cIds.Nodup ∧ p.nIds.Nodup)
 
 instance (x : ExtendSpec) : Decidable (ExtendRegularFront x) := by
   unfold ExtendRegularFront; infer_instance
@@ -1646,7 +1653,7 @@ a catalogued corruption -/
 theorem extendFront_spec (x : ExtendSpec) (hr : ExtendRegularFront x) :
     (ValidExtendFront x ∧ extendFront x = .ok (extendN x)) ∨
     (¬ ValidExtendFront x ∧ (∃ k, ExtFrontViolates x k) ∧ extendFront x = .error .valueError) := by
-  obtain ⟨hinv, hdt, hlog⟩ := hr
+  obtain ⟨hinv, hdt, hlog, hown⟩ := hr
   unfold extendFront
   split
   · rename_i c1
@@ -1660,14 +1667,16 @@ theorem extendFront_spec (x : ExtendSpec) (hr : ExtendRegularFront x) :
     have hbad : p.qubits = [] ∨ p.d ≠ x.dPerQubit ^ p.qubits.length := by
       unfold EPulse.loopFails at hf
       simp only [Bool.and_eq_true, Bool.not_eq_true', Bool.or_eq_true, List.isEmpty_iff] at hf
-      rcases hf.2 with h | ⟨-, h⟩
+      rcases hf.2 with h | ⟨hnr, h⟩
       · exact .inl h
       · right
         intro hd
         have hl := hlog p hp hd
+        have hrm : p.remapped = true := by simp [EPulse.remapped, hf.1, hnr]
+        obtain ⟨hc, hn⟩ := hown p hp hrm
         unfold EPulse.remapOk at h
         rw [hl] at h
-        simp [hd] at h
+        simp [hd, (hasDup_eq_false_iff _).mpr hc, (hasDup_eq_false_iff _).mpr hn] at h
     right
     refine ⟨fun hv => ?_, ⟨.dimension, p, hp, hbad⟩, rfl⟩
     have := hv.2.1 p hp
@@ -1792,13 +1801,75 @@ def AdditionalOk (x : ExtendSpec) (N : Nat) : Option HamSpec → Prop
 instance (x : ExtendSpec) (N : Nat) (a : Option HamSpec) : Decidable (AdditionalOk x N a) := by
   cases a <;> unfold AdditionalOk <;> infer_instance
 
+/-- a given identifier mapping has every control and every noise identifier of its pulse as a key
+(nothing is required of an entry without a mapping) -/
+def EPulse.MappingTotal (p : EPulse) : Prop :=
+  match p.mapping with
+  | none => True
+  | some m => ∀ s ∈ p.cIds ++ p.nIds, (m.lookup s).isSome = true
+
+instance (p : EPulse) : Decidable p.MappingTotal := by
+  unfold EPulse.MappingTotal; cases p.mapping <;> infer_instance
+
+theorem EPulse.mapIds_isNone_iff (p : EPulse) (ids : List String) :
+    (p.mapIds ids).isNone = true ↔ ∃ m, p.mapping = some m ∧ ∃ s ∈ ids, m.lookup s = none := by
+  unfold EPulse.mapIds
+  cases hm : p.mapping with
+  | none => simp
+  | some m =>
+    simp only [Option.isNone_iff_eq_none, RemapDef.applyDict_eq_none_iff, Option.some.injEq,
+      exists_eq_left']
+
+theorem EPulse.keyMissing_eq_false_iff (p : EPulse) : p.keyMissing = false ↔ p.MappingTotal := by
+  unfold EPulse.keyMissing EPulse.MappingTotal
+  rw [Bool.or_eq_false_iff, ← Bool.not_eq_true, ← Bool.not_eq_true, EPulse.mapIds_isNone_iff,
+    EPulse.mapIds_isNone_iff]
+  cases hm : p.mapping with
+  | none => simp
+  | some m =>
+    simp only [Option.some.injEq, exists_eq_left', not_exists, not_and, List.mem_append]
+    constructor
+    · rintro ⟨h1, h2⟩ s (hs | hs)
+      · cases h : m.lookup s with
+        | none => exact absurd h (h1 s hs)
+        | some v => rfl
+      · cases h : m.lookup s with
+        | none => exact absurd h (h2 s hs)
+        | some v => rfl
+    · intro h
+      constructor
+      · intro s hs hn
+        have := h s (.inl hs)
+        rw [hn] at this; cases this
+      · intro s hs hn
+        have := h s (.inr hs)
+        rw [hn] at this; cases this
+
+theorem any_keyMissing_iff (x : ExtendSpec) :
+    (orderedPulses x).any (·.keyMissing) = true ↔ ∃ p ∈ x.pulses, ¬ p.MappingTotal := by
+  rw [List.any_eq_true]
+  constructor
+  · rintro ⟨p, hp, hk⟩
+    refine ⟨p, mem_orderedPulses.mp hp, fun ht => ?_⟩
+    rw [(p.keyMissing_eq_false_iff).mpr ht] at hk; cases hk
+  · rintro ⟨p, hp, hk⟩
+    refine ⟨p, mem_orderedPulses.mpr hp, ?_⟩
+    cases h : p.keyMissing
+    · exact absurd ((p.keyMissing_eq_false_iff).mp h) hk
+    · rfl
+
 /-- DOCUMENTED domain of the remaining arguments of `extend`: with `cache_filter_function=True`
 either `omega` is given or the cached frequencies of all pulses are the same; diagonalization is
 not switched off while it is needed (additional noise Hamiltonian and filter function to be
-computed); the additional noise Hamiltonian is `AdditionalOk`. -/
+computed); every given identifier mapping covers the identifiers of its pulse; the control
+identifiers of the mapped pulses are unique AFTER MAPPING (given or default mapping), and so are
+the noise identifiers (the repair of F48 — before, such calls returned a pulse with
+indistinguishable operators); the additional noise Hamiltonian is `AdditionalOk`. -/
 def ValidExtendBack (x : ExtendSpec) (N : Nat) : Prop :=
   (x.cacheFF = some true → x.omegaGiven = false → OmegaInferable x) ∧
   ¬ (x.cacheDiag = some false ∧ x.additional.isSome = true ∧ effCacheFF x = true) ∧
+  (∀ p ∈ x.pulses, p.MappingTotal) ∧
+  (mappedCIds x).Nodup ∧ (mappedNIds x).Nodup ∧
   AdditionalOk x N x.additional
 
 instance (x : ExtendSpec) (N : Nat) : Decidable (ValidExtendBack x N) := by
@@ -1836,6 +1907,12 @@ inductive ExtBackKind
   | omegaMissing
   /-- `cache_diagonalization=False` although the diagonalization is needed -/
   | diagConflict
+  /-- an identifier mapping misses an identifier of its pulse (`KeyError`) -/
+  | missingKey
+  /-- two control operators of the mapped pulses get the same identifier -/
+  | duplicateControl
+  /-- two noise operators of the mapped pulses get the same identifier -/
+  | duplicateNoise
   /-- the additional noise Hamiltonian is corrupted in way `k` -/
   | additional (k : HamKind)
   /-- the additional noise operators do not have the dimension of the register -/
@@ -1846,11 +1923,15 @@ deriving DecidableEq, Repr
 
 def ExtBackKind.cls : ExtBackKind → Err
   | .additional k => k.cls
+  | .missingKey => .keyError
   | _ => .valueError
 
 def ExtBackViolates (x : ExtendSpec) (N : Nat) : ExtBackKind → Prop
   | .omegaMissing => x.cacheFF = some true ∧ x.omegaGiven = false ∧ ¬ OmegaInferable x
   | .diagConflict => x.cacheDiag = some false ∧ x.additional.isSome = true ∧ effCacheFF x = true
+  | .missingKey => ∃ p ∈ x.pulses, ¬ p.MappingTotal
+  | .duplicateControl => ¬ (mappedCIds x).Nodup
+  | .duplicateNoise => ¬ (mappedNIds x).Nodup
   | .additional k => ∃ H, x.additional = some H ∧ HamViolates H (extendNDt x) "B" k
   | .additionalDimension => ∃ H, x.additional = some H ∧ ValidHam H (extendNDt x) "B" ∧
       hamDim H ≠ some (x.dPerQubit ^ N)
@@ -1930,10 +2011,45 @@ theorem extendBack_spec (x : ExtendSpec) (N : Nat) (hne : x.pulses ≠ [])
   have hv2 : ¬ (x.cacheDiag = some false ∧ x.additional.isSome = true ∧ effCacheFF x = true) := by
     rintro ⟨h1, h2, -⟩
     apply c2; simp [h1, h2]
+  split
+  · rename_i c3
+    have hex := (any_keyMissing_iff x).mp c3
+    right
+    refine ⟨fun hv => ?_, .missingKey, hex, rfl⟩
+    obtain ⟨p, hp, hk⟩ := hex
+    exact hk (hv.2.2.1 p hp)
+  rename_i c3
+  have hv3 : ∀ p ∈ x.pulses, p.MappingTotal := by
+    intro p hp
+    apply Classical.byContradiction
+    intro hk
+    exact c3 ((any_keyMissing_iff x).mpr ⟨p, hp, hk⟩)
+  split
+  · rename_i c4
+    have hd := (hasDup_eq_true_iff _).mp c4
+    right
+    exact ⟨fun hv => hd hv.2.2.2.1, .duplicateControl, hd, rfl⟩
+  rename_i c4
+  have hv4 : (mappedCIds x).Nodup := by
+    apply (hasDup_eq_false_iff _).mp
+    cases h : Pulse.hasDup (mappedCIds x)
+    · rfl
+    · exact absurd h c4
+  split
+  · rename_i c5
+    have hd := (hasDup_eq_true_iff _).mp c5
+    right
+    exact ⟨fun hv => hd hv.2.2.2.2.1, .duplicateNoise, hd, rfl⟩
+  rename_i c5
+  have hv5 : (mappedNIds x).Nodup := by
+    apply (hasDup_eq_false_iff _).mp
+    cases h : Pulse.hasDup (mappedNIds x)
+    · rfl
+    · exact absurd h c5
   cases hadd : x.additional with
   | none =>
     left
-    refine ⟨⟨hv1, hv2, by rw [hadd]; trivial⟩, rfl⟩
+    refine ⟨⟨hv1, hv2, hv3, hv4, hv5, by rw [hadd]; trivial⟩, rfl⟩
   | some H =>
     rw [hadd] at hreg
     have hregH : HamRegular H := hreg
@@ -1943,7 +2059,7 @@ theorem extendBack_spec (x : ExtendSpec) (N : Nat) (hne : x.pulses ≠ [])
       obtain ⟨k, hk, hc⟩ := parseHamiltonian_error hp
       right
       refine ⟨fun hv => ?_, .additional k, ⟨H, hadd, hk⟩, by simp [ExtBackKind.cls, hc]⟩
-      have := hv.2.2
+      have := hv.2.2.2.2.2
       rw [hadd] at this
       exact not_valid_of_hamViolates hk this.1
     | ok a =>
@@ -1959,12 +2075,12 @@ theorem extendBack_spec (x : ExtendSpec) (N : Nat) (hne : x.pulses ≠ [])
           have hc' : s ∈ mappedNIds x := by simpa using hc
           right
           refine ⟨fun hv => ?_, .duplicateIdentifiers, ⟨H, hadd, s, hs', hc'⟩, rfl⟩
-          have := hv.2.2
+          have := hv.2.2.2.2.2
           rw [hadd] at this
           exact this.2.2 s hs' hc'
         · rename_i c4
           left
-          refine ⟨⟨hv1, hv2, ?_⟩, rfl⟩
+          refine ⟨⟨hv1, hv2, hv3, hv4, hv5, ?_⟩, rfl⟩
           rw [hadd]
           refine ⟨hvH, hd, ?_⟩
           intro s hs hc
@@ -1977,9 +2093,257 @@ theorem extendBack_spec (x : ExtendSpec) (N : Nat) (hne : x.pulses ≠ [])
         have hne' : hamDim H ≠ some (x.dPerQubit ^ N) := by
           rw [hd]; intro h; exact hdD (Option.some.inj h)
         refine ⟨fun hv => ?_, .additionalDimension, ⟨H, hadd, hvH, hne'⟩, rfl⟩
-        have := hv.2.2
+        have := hv.2.2.2.2.2
         rw [hadd] at this
         exact hne' this.2.1
+
+/-! ### `extend`: rejections that need no side condition -/
+
+theorem nodup_of_nodup_map {α β : Type} (f : α → β) (l : List α) (h : (l.map f).Nodup) : l.Nodup := by
+  induction l with
+  | nil => exact List.nodup_nil
+  | cons a as ih =>
+    rw [List.map_cons, List.nodup_cons] at h
+    rw [List.nodup_cons]
+    exact ⟨fun ha => h.1 (List.mem_map.mpr ⟨a, ha, rfl⟩), ih h.2⟩
+
+theorem nodup_of_nodup_flatMap {α β : Type} (f : α → List β) (l : List α)
+    (h : (l.flatMap f).Nodup) {a : α} (ha : a ∈ l) : (f a).Nodup := by
+  induction l with
+  | nil => cases ha
+  | cons b bs ih =>
+    rw [List.flatMap_cons] at h
+    rcases List.mem_cons.mp ha with rfl | ha'
+    · exact List.Nodup.sublist (List.sublist_append_left _ _) h
+    · exact ih (List.Nodup.sublist (List.sublist_append_right _ _) h) ha'
+
+/-- the mapped identifiers of one entry are the image of its identifiers under a function -/
+theorem EPulse.mapIds_eq_map (p : EPulse) (ht : p.MappingTotal) (ids : List String)
+    (hids : ∀ s ∈ ids, s ∈ p.cIds ++ p.nIds) : ∃ f : String → String, p.mapIds ids = some (ids.map f) := by
+  unfold EPulse.mapIds
+  unfold EPulse.MappingTotal at ht
+  cases hm : p.mapping with
+  | none => exact ⟨_, rfl⟩
+  | some m =>
+    rw [hm] at ht
+    refine ⟨fun s => (m.lookup s).getD "", ?_⟩
+    simp only
+    rw [RemapDef.applyDict_eq_some_iff, List.map_map]
+    apply List.map_congr_left
+    intro s hs
+    have := ht s (hids s hs)
+    cases h : m.lookup s with
+    | none => rw [h] at this; cases this
+    | some v => simp [h]
+
+/-- an entry whose OWN control (noise) identifiers repeat yields repeated identifiers after any
+(total) mapping -/
+theorem mappedCIds_not_nodup_of_own (x : ExtendSpec) {p : EPulse} (hp : p ∈ x.pulses)
+    (ht : p.MappingTotal) (hd : ¬ p.cIds.Nodup) : ¬ (mappedCIds x).Nodup := by
+  intro h
+  have h1 := nodup_of_nodup_flatMap _ _ h (mem_orderedPulses.mpr hp)
+  obtain ⟨f, hf⟩ := p.mapIds_eq_map ht p.cIds (fun s hs => List.mem_append_left _ hs)
+  unfold EPulse.newCIds at h1
+  rw [hf, Option.getD_some] at h1
+  exact hd (nodup_of_nodup_map f _ h1)
+
+theorem mappedNIds_not_nodup_of_own (x : ExtendSpec) {p : EPulse} (hp : p ∈ x.pulses)
+    (ht : p.MappingTotal) (hd : ¬ p.nIds.Nodup) : ¬ (mappedNIds x).Nodup := by
+  intro h
+  have h1 := nodup_of_nodup_flatMap _ _ h (mem_orderedPulses.mpr hp)
+  obtain ⟨f, hf⟩ := p.mapIds_eq_map ht p.nIds (fun s hs => List.mem_append_right _ hs)
+  unfold EPulse.newNIds at h1
+  rw [hf, Option.getD_some] at h1
+  exact hd (nodup_of_nodup_map f _ h1)
+
+/-- the mapping checks only ever raise `ValueError` … -/
+theorem extendFront_error {x : ExtendSpec} {e : Err} (h : extendFront x = .error e) :
+    e = .valueError := by
+  unfold extendFront at h
+  iterate 6 (split at h; · cases h; rfl)
+  dsimp only at h
+  cases hN : x.N with
+  | none => rw [hN] at h; simp at h
+  | some n =>
+    rw [hN] at h
+    dsimp only at h
+    split at h
+    · cases h; rfl
+    · cases h
+
+/-- … and return the size of the register -/
+theorem extendFront_ok {x : ExtendSpec} {N : Nat} (h : extendFront x = .ok N) : N = extendN x := by
+  unfold extendFront at h
+  iterate 6 (split at h; · cases h)
+  dsimp only at h
+  cases hN : x.N with
+  | none =>
+    rw [hN] at h
+    simp only [Bool.false_eq_true, ↓reduceIte, Option.getD_none, Except.ok.injEq] at h
+    rw [← h]; simp [extendN, lastQubit, hN]
+  | some n =>
+    rw [hN] at h
+    dsimp only at h
+    split at h
+    · cases h
+    · simp only [Option.getD_some, Except.ok.injEq] at h
+      rw [← h]; simp [extendN, hN]
+
+/-- every exception of the second part raised before the additional noise Hamiltonian is looked at
+is a `ValueError`, except the `KeyError` of an incomplete mapping -/
+theorem extendBack_of_not_unique (x : ExtendSpec) (N : Nat)
+    (hd : ¬ (mappedCIds x).Nodup ∨ ¬ (mappedNIds x).Nodup) :
+    extendBack x N = .error .valueError ∨
+      (extendBack x N = .error .keyError ∧ ∃ p ∈ x.pulses, ¬ p.MappingTotal) := by
+  unfold extendBack
+  split
+  · exact .inl rfl
+  split
+  · exact .inl rfl
+  split
+  · rename_i c3
+    exact .inr ⟨rfl, (any_keyMissing_iff x).mp c3⟩
+  split
+  · exact .inl rfl
+  rename_i c4
+  split
+  · exact .inl rfl
+  rename_i c5
+  exfalso
+  rcases hd with hd | hd
+  · apply hd; apply (hasDup_eq_false_iff _).mp
+    cases h : Pulse.hasDup (mappedCIds x)
+    · rfl
+    · exact absurd h c4
+  · apply hd; apply (hasDup_eq_false_iff _).mp
+    cases h : Pulse.hasDup (mappedNIds x)
+    · rfl
+    · exact absurd h c5
+
+theorem extendBack_of_missing_key (x : ExtendSpec) (N : Nat)
+    (hk : ∃ p ∈ x.pulses, ¬ p.MappingTotal) :
+    extendBack x N = .error .valueError ∨ extendBack x N = .error .keyError := by
+  unfold extendBack
+  split
+  · exact .inl rfl
+  split
+  · exact .inl rfl
+  split
+  · exact .inr rfl
+  rename_i c3
+  exact absurd ((any_keyMissing_iff x).mpr hk) c3
+
+/-! ### `remap`: the identifiers -/
+
+/-- a given mapping has every identifier of `ids` as a key (nothing is required without a mapping) -/
+def RemapMappingTotal (mapping : Option RemapDef.Dict) (ids : List String) : Prop :=
+  match mapping with
+  | none => True
+  | some m => ∀ s ∈ ids, (m.lookup s).isSome = true
+
+instance (mapping : Option RemapDef.Dict) (ids : List String) :
+    Decidable (RemapMappingTotal mapping ids) := by
+  unfold RemapMappingTotal; cases mapping <;> infer_instance
+
+/-- the identifiers of the remapped pulse: the values of the mapping (`[]` when it misses a key;
+`remap` has raised `KeyError` then), the identifiers themselves without a mapping -/
+def remapMapped (mapping : Option RemapDef.Dict) (ids : List String) : List String :=
+  (remapIds mapping ids).getD []
+
+/-- `order` is a permutation of `0 … N-1` and the dimension of the pulse is `d_per_qubit ** N`
+(`N = logN`) -/
+def RemapShapeOk (d logN dpq : Nat) (order : List Int) : Prop :=
+  (∀ o ∈ order, 0 ≤ o) ∧ (order.map Int.toNat).Perm (List.range logN) ∧ d = dpq ^ logN
+
+instance (d logN dpq : Nat) (order : List Int) : Decidable (RemapShapeOk d logN dpq order) := by
+  unfold RemapShapeOk; infer_instance
+
+/-- DOCUMENTED domain of `remap`: `order` a permutation of the qubits of the pulse; the mapping, if
+given, covers all identifiers of the pulse; the control identifiers are unique after mapping, and
+so are the noise identifiers (the repair of F48) -/
+def ValidRemap (d logN dpq : Nat) (order : List Int) (cIds nIds : List String)
+    (mapping : Option RemapDef.Dict) : Prop :=
+  RemapShapeOk d logN dpq order ∧ RemapMappingTotal mapping (cIds ++ nIds) ∧
+    (remapMapped mapping cIds).Nodup ∧ (remapMapped mapping nIds).Nodup
+
+instance (d logN dpq : Nat) (order : List Int) (cIds nIds : List String)
+    (mapping : Option RemapDef.Dict) : Decidable (ValidRemap d logN dpq order cIds nIds mapping) := by
+  unfold ValidRemap; infer_instance
+
+theorem remapIds_isSome_iff (mapping : Option RemapDef.Dict) (ids : List String) :
+    (∃ r, remapIds mapping ids = some r) ↔ RemapMappingTotal mapping ids := by
+  unfold remapIds RemapMappingTotal
+  cases mapping with
+  | none => simp
+  | some m =>
+    simp only
+    constructor
+    · rintro ⟨r, hr⟩ s hs
+      cases h : m.lookup s with
+      | some v => rfl
+      | none =>
+        have := (RemapDef.applyDict_eq_none_iff m ids).mpr ⟨s, hs, h⟩
+        rw [hr] at this; cases this
+    · intro h
+      cases hr : RemapDef.applyDict m ids with
+      | some r => exact ⟨r, rfl⟩
+      | none =>
+        obtain ⟨s, hs, hn⟩ := (RemapDef.applyDict_eq_none_iff m ids).mp hr
+        have := h s hs
+        rw [hn] at this; cases this
+
+theorem remapMappingTotal_append (mapping : Option RemapDef.Dict) (a b : List String) :
+    RemapMappingTotal mapping (a ++ b) ↔ RemapMappingTotal mapping a ∧ RemapMappingTotal mapping b := by
+  unfold RemapMappingTotal
+  cases mapping with
+  | none => simp
+  | some m =>
+    simp only [List.mem_append]
+    exact ⟨fun h => ⟨fun s hs => h s (.inl hs), fun s hs => h s (.inr hs)⟩,
+      fun h s hs => hs.elim (h.1 s) (h.2 s)⟩
+
+/-- the identifier part of `remap`: accepted iff the mapping covers all identifiers and is
+injective on the control and on the noise identifiers; `KeyError` for a missing key, otherwise
+`ValueError` for identifiers that coincide after mapping -/
+theorem remapIdChecks_spec (cIds nIds : List String) (mapping : Option RemapDef.Dict) :
+    (RemapMappingTotal mapping (cIds ++ nIds) ∧ (remapMapped mapping cIds).Nodup ∧
+      (remapMapped mapping nIds).Nodup ∧ remapIdChecks cIds nIds mapping = .ok ()) ∨
+    (¬ RemapMappingTotal mapping (cIds ++ nIds) ∧ remapIdChecks cIds nIds mapping = .error .keyError) ∨
+    (RemapMappingTotal mapping (cIds ++ nIds) ∧
+      ¬ ((remapMapped mapping cIds).Nodup ∧ (remapMapped mapping nIds).Nodup) ∧
+      remapIdChecks cIds nIds mapping = .error .valueError) := by
+  rw [remapMappingTotal_append]
+  unfold remapIdChecks remapMapped
+  cases hc : remapIds mapping cIds with
+  | none =>
+    right; left
+    refine ⟨fun h => ?_, rfl⟩
+    obtain ⟨r, hr⟩ := (remapIds_isSome_iff mapping cIds).mpr h.1
+    rw [hr] at hc; cases hc
+  | some c =>
+    have htc := (remapIds_isSome_iff mapping cIds).mp ⟨c, hc⟩
+    cases hn : remapIds mapping nIds with
+    | none =>
+      right; left
+      refine ⟨fun h => ?_, rfl⟩
+      obtain ⟨r, hr⟩ := (remapIds_isSome_iff mapping nIds).mpr h.2
+      rw [hr] at hn; cases hn
+    | some n =>
+      have htn := (remapIds_isSome_iff mapping nIds).mp ⟨n, hn⟩
+      simp only [Option.getD_some]
+      cases hdc : Pulse.hasDup c with
+      | true =>
+        right; right
+        exact ⟨⟨htc, htn⟩, fun h => (hasDup_eq_true_iff _).mp hdc h.1, by simp⟩
+      | false =>
+        have hcn := (hasDup_eq_false_iff _).mp hdc
+        cases hdn : Pulse.hasDup n with
+        | true =>
+          right; right
+          exact ⟨⟨htc, htn⟩, fun h => (hasDup_eq_true_iff _).mp hdn h.2, by simp⟩
+        | false =>
+          left
+          exact ⟨⟨htc, htn⟩, hcn, (hasDup_eq_false_iff _).mp hdn, by simp⟩
 
 /-! ### `Basis.__new__` -/
 
